@@ -70,7 +70,7 @@ HOSTILE_METHODS = ["destruct", "destruct1", "new1", "new2", "new3", "new_", "typ
                    "super", "crate", "mod", "move", "ref", "use", "where", "loop", "in", "let", "as", "dyn", "async", "await", "box", "yield",
                    "final", "override", "abstract", "macro", "priv", "unsized", "become", "unsafe", "trait", "pub", "extern_", "m0", "get"]
 HOSTILE_FIELDS = ["_base", "_base_1", "vtable_", "_address", "_bitfield_1", "_bitfield_align_1", "__bindgen_padding_0", "_phantom_0", "type", "self", "Self",
-                  "fn", "match", "crate", "super", "box", "dyn", "async", "_", "__", "a$b"]
+                  "fn", "match", "crate", "super", "box", "dyn", "async", "_", "a$b"]
 
 
 def generate(rng, hostile_names=False):
